@@ -432,7 +432,10 @@ impl Story {
                 }
                 CommandType::VisitIndex => {
                     let cpc = self.get_state().get_current_pointer().container.unwrap();
-                    let count = self.get_state_mut().visit_count_for_container(&cpc) - 1; // index
+                    let count = self
+                        .get_state_mut()
+                        .visit_count_for_container(&cpc)
+                        .wrapping_sub(1); // index
                     // not count
                     self.get_state_mut()
                         .push_evaluation_stack(Rc::new(Value::new::<i32>(count)));
